@@ -62,6 +62,11 @@ def outside_variant(v):
         {"path": "root2", "kind": "dir"},
         {"path": "root2/secret.txt", "data": f"R2-{tag}\n"},
         {"path": "gophermap", "data": f"ioutside-{tag}\n"},
+        {"path": "script.sh", "data": f"#!/bin/sh\necho OUTSIDE-SCRIPT-{tag}\n", "mode": 0o755},
+        {"path": "md", "kind": "dir"}, {"path": "md/new", "kind": "dir"}, {"path": "md/cur", "kind": "dir"},
+        {"path": "md/new/1.msg", "data": f"Subject: outside {tag}\n\nx\n"},
+        {"path": "rootdir1", "kind": "dir"}, {"path": "rootdir1/c.txt", "data": f"SIBLING-{tag}\n"},
+        {"path": "root-private", "kind": "dir"}, {"path": "root-private/secret.txt", "data": f"PRIV-{tag}\n"},
         {"path": "mail.mbox", "data": MBOX.replace("one", tag)},
     ] + ([{"path": "etc", "kind": "dir"}, {"path": "etc/passwd", "data": "root:x:0:0\n"}] if v == "b" else [])
 
@@ -101,13 +106,18 @@ def run(tier):
         {"op": "strfun", "fn": "isrequestsecure", "inputs": strings},
         {"op": "strfun", "fn": "url_isrequestsecure", "inputs": strings},
         {"op": "strfun", "fn": "slashnormalize", "inputs": strings},
+        {"op": "strfun", "fn": "virtual_split", "inputs": [x for x in strings if "\x00" not in x]},
         {"op": "strfun", "fn": "getfspath", "inputs": [list(p) for p in pairs]},
         {"op": "strfun", "fn": "normpath_inside", "inputs": [[r, r + s] for r, s in pairs]},
     ])
     for r in res:
         if not r["ok"]:
             raise RuntimeError(r["err"] + "\n" + r.get("tb", ""))
-    sec, usec, norm, fsp, ins = [r["res"] for r in res]
+    sec, usec, norm, vsp, fsp, ins = [r["res"] for r in res]
+    vstrings = [x for x in strings if "\x00" not in x]
+    vcases = ["(%s, ((%s, %s), (%s, %s)))" % (coq_str(s), coq_str(v[0]), coq_str(v[1]), coq_bool(v[2]), coq_str(v[3]))
+              for s, v in zip(vstrings, vsp)]
+    mism3, err3, nsh3 = coq_eval("C01", "k_virtual", "Lib.Str Corr.K01", "chk_virtual", vcases, shard=1500)
     cases = ["(%s, (%s, (%s, %s)))" % (coq_str(s), coq_bool(a), coq_bool(b), coq_str(c))
              for s, a, b, c in zip(strings, sec, usec, norm)]
     mism, err, nsh = coq_eval("C01", "k_sel", "Lib.Str Corr.K01", "chk_sel", cases, shard=1500)
@@ -125,12 +135,14 @@ def run(tier):
         chk.count(("path", p))
     cov["correspondence"] = {
         "component_selectors": len(strings), "component_paths": len(pcases), "shards": nsh + nsh2,
-        "mismatches": len(mism) + len(mism2), "errors": [e for e in (err, err2) if e],
+        "mismatches": len(mism) + len(mism2) + len(mism3), "errors": [e for e in (err, err2, err3) if e],
+        "virtual_split_cases": len(vcases),
         "exhaustive_alphabet": ALPHABET, "exhaustive_maxlen": 5 if tier == "thorough" else 4,
     }
     chk.sample({"kind": "component", "selector": strings[77], "isrequestsecure": sec[77], "slashnormalize": norm[77]})
-    k_broken = bool(mism or mism2 or err or err2)
+    k_broken = bool(mism or mism2 or mism3 or err or err2 or err3)
     k_detail = {"selector_mismatches": [strings[i] for i in mism[:20]],
+                "virtual_split_mismatches": [[vstrings[i], vsp[i]] for i in mism3[:20]],
                 "path_mismatches": [pairs[pidx[i]] for i in mism2[:20]], "errors": [err, err2]}
     # does a disagreement exhibit the property failing on the implementation?
     # direct statement on the implementation, independent of the model: a selector that
@@ -153,6 +165,10 @@ def run(tier):
         sels = gen.climber_selectors(rng, names, nhost) + [
             "/..", "/dir1/../..", "/dir1/sub/../../..", "/.", "/dir1/.\\", "/a.txt/..", "/..\\secret.txt",
             "/dir1//c.txt", "//", "/mail.mbox|/..", "/1/..", "/dir1/..?x"]
+        lit = []
+        for s in sels[:len(sels) // 2] + sels[-12:]:
+            lit.extend(gen.literal_percent_forms(rng, s))
+        sels = sels + lit
         for s in sels:
             layers = rng.choice([1, 1, 1, 2, 3])
             force = rng.random() < 0.4
@@ -171,6 +187,11 @@ def run(tier):
             s = "/" + nm
             data, tls = gen.request_bytes(proto, s)
             requests.append((proto, s, 1, False, data, tls, False))
+    # raw WAP request targets next to the /wap prefix (sibling-of-root spellings)
+    for tgt in ["/wap2/secret.txt", "/wap2/secret.txt.abstract", "/wap../secret.txt", "/wap", "/wap2", "/wap%2Fa.txt", "/wapdir1/c.txt",
+                "/wap/../secret.txt", "/%77ap/a.txt", "/wap/wap/a.txt"]:
+        data = b"GET " + tgt.encode() + b" HTTP/1.0\r\n\r\n"
+        requests.append(("wap", "<raw>" + tgt, 1, False, data, False, False))
     tree = base_tree(rng)
     reqs_json = [{"data": gen.lat(d), "tls": t, "trace": True} for (_, _, _, _, d, t, _) in requests]
     worlds = []
